@@ -5,6 +5,7 @@ import (
 	"errors"
 	"io"
 	"log"
+	"strings"
 	"time"
 
 	hclog "github.com/hashicorp/go-hclog"
@@ -47,6 +48,7 @@ func mReadLine(b *bufio.Reader) ([]byte, bool, error) {
 		return nil, false, io.EOF
 	}
 	L := g.lines[g.idx]
+	lastLineIdx = g.idx
 	rem := len(L) - g.off
 	need := rem + 1
 	if g.term[g.idx] == 1 {
@@ -93,6 +95,9 @@ var tsBad bool
 //verif:model encoding/json.Unmarshal
 func mUnmarshal(data []byte, v any) error {
 	raw := v.(*map[string]interface{})
+	if jsForce0 && lastLineIdx == 0 { // the first of two lines is text
+		return errors.New("json: syntax error")
+	}
 	jsKind = vChoice(3)
 	switch jsKind {
 	case 0:
@@ -218,3 +223,101 @@ func harnessC10() {
 	}
 	vDone()
 }
+
+// Two lines: the first establishes logStderr's carried state (continuation flag, panic mode) in every way a complete
+// line can - shorter than, exactly as long as, or longer than the buffer; plain, "panic:" or "[INFO]" text - and the
+// second line is then checked over the full class space of the one-line run.
+func harnessC10two() {
+	L0 := vNondetStr("L0", "\n")
+	L1 := vNondetStr("L1", "\n")
+	B := vNondetInt("B")
+	vAssume(B >= 16 && B <= 1<<20)
+	vAssume(len(L0) <= 2*B)
+	vAssume(len(L1)+2 <= B) // the second line arrives in one piece
+	src := &lineSrc{lines: []string{L0, L1}, term: []int{0, vChoice(2)}}
+	w := &vWriter{}
+	var recs []logRec
+	cfg := &ClientConfig{Stderr: w, Logger: vLogger{&recs}, PluginLogBufferSize: B}
+	c := &Client{config: cfg, logger: cfg.Logger}
+	c.clientWaitGroup.Add(1)
+	c.pipesWaitGroup.Add(1)
+	jsForce0 = true // the first line is text (not JSON)
+	panicked := true
+	func() {
+		defer func() { recover() }()
+		c.logStderr("plugin", &vPipe{src})
+		panicked = false
+	}()
+	vAssert(!panicked, "C10: no stderr content makes the host panic")
+
+	// split what reached the stderr writer at the separators go-plugin wrote
+	var p0, p1 []string
+	nl := 0
+	for _, ch := range w.chunks {
+		if vIsConcrete(ch) && ch == "\n" {
+			nl++
+			continue
+		}
+		if nl == 0 {
+			p0 = append(p0, ch)
+		} else {
+			p1 = append(p1, ch)
+		}
+	}
+	vAssert(nl == 2, "C10: each line is followed by a newline on the stderr writer")
+	vAssert(vConcatIs(p0, L0), "C10: the first line is copied unchanged to the stderr writer")
+	vAssert(vConcatIs(p1, L1), "C10: the second line is copied unchanged to the stderr writer")
+	n0 := len(p0)
+	if n0 == 0 {
+		n0 = 1 // an empty first line is still one (empty) piece
+	}
+	if len(L0)+1 > B {
+		vCover("first-line-chunked")
+		if len(L0) == B {
+			vCover("first-line-exact-fit")
+		}
+	} else {
+		vCover("first-line-single")
+	}
+	// the record of the second line is the last one
+	vAssert(len(recs) >= 2, "C10: a log record is emitted for every line")
+	r := recs[len(recs)-1]
+	first := recs[0]
+	inPanic := len(L0)+1 <= B && first.level == "error" && vPrefix(L0, "panic:")
+	switch {
+	case jsKind == 1 && !tsBad && jsTS != 2 && jsMsg == 1 && jsLvl == 1 && (jsLevel == "trace" || jsLevel == "debug" || jsLevel == "info" || jsLevel == "warn" || jsLevel == "error"):
+		vCover("hclog-json")
+		vAssert(r.level == jsLevel, "C10: hclog JSON record is logged at its own level (after any first line)")
+		vAssert(r.msg == jsMessage, "C10: hclog JSON record carries its message (after any first line)")
+	case jsKind == 0:
+		vCover("text")
+		vAssert(r.msg == L1, "C10: a text line is logged verbatim (after any first line)")
+		switch {
+		case vPrefix(L1, "[TRACE]"):
+			vAssert(r.level == "trace", "C10: [TRACE] text is logged at trace")
+		case vPrefix(L1, "[DEBUG]"):
+			vAssert(r.level == "debug", "C10: [DEBUG] text is logged at debug")
+		case vPrefix(L1, "[INFO]"):
+			vAssert(r.level == "info", "C10: [INFO] text is logged at info")
+		case vPrefix(L1, "[WARN]"):
+			vAssert(r.level == "warn", "C10: [WARN] text is logged at warn")
+		case vPrefix(L1, "[ERROR]"):
+			vAssert(r.level == "error", "C10: [ERROR] text is logged at error")
+		case vPrefix(L1, "panic:"):
+			vAssert(r.level == "error", "C10: a panic line is logged at error")
+		default:
+			if inPanic {
+				vCover("inside-panic-trace")
+				vAssert(r.level == "error", "C10: text inside a panic trace is logged at error")
+			} else {
+				vAssert(r.level == "debug", "C10: unrecognised text falls back to debug")
+			}
+		}
+	}
+	vDone()
+}
+
+var jsForce0 bool
+var lastLineIdx int
+
+func vPrefix(s, p string) bool { return len(s) >= len(p) && strings.HasPrefix(s, p) }
